@@ -114,8 +114,31 @@ structure LoopSt (K : Type) where
   stack : List (List (DS K))
   leafScale : Nat
 
-/-- the loop `while (size(point_set) != 0)`; `ins q new_point_set new_consumed_set stack leaf_scale` is the recursive
-    call `batch_insert(dcb, q, next_scale, top_scale, new_point_set, new_consumed_set, stack)` -/
+/-- one iteration of the loop `while (size(point_set) != 0)` with `e = point_set.last()`;
+    `ins q new_point_set new_consumed_set stack leaf_scale` is the recursive call
+    `batch_insert(dcb, q, next_scale, top_scale, new_point_set, new_consumed_set, stack)` -/
+def loopStep (δ : Nat → Nat → K) (fmax : K)
+    (ins : Nat → List (DS K) → List (DS K) → List (List (DS K)) → Nat → Option (BRes K))
+    (st : LoopSt K) (e : DS K) : Option (LoopSt K) :=
+  match e.dist with
+  | [] => none                                                    -- point_set.last().dist.last()
+  | newDist :: _ =>
+    let consumed := st.consumed ++ [e]                            -- push(consumed_set, point_set.last())
+    let ps := st.pointSet.dropLast                                -- point_set.decr()
+    let s1 := distSplit δ fmax e.p ps                             -- dist_split(dcb, point_set, new_point_set, ..)
+    let s2 := distSplit δ fmax e.p st.far                         -- dist_split(dcb, far, new_point_set, ..)
+    match ins e.p (st.newPS ++ s1.1 ++ s2.1) st.newCS st.stack st.leafScale with
+    | none => none
+    | some r =>
+      let child := setParentDist newDist r.node                   -- new_child.parent_dist = new_dist
+      match unsplit fmax r.pointSet, decrAll r.consumed with
+      | some (toPS, toFar), some cs =>
+        some { pointSet := s1.2 ++ toPS, far := s2.2 ++ toFar, consumed := consumed ++ cs,
+               newPS := [], newCS := [],                          -- resize(.., 0)
+               children := st.children ++ [child], stack := r.stack, leafScale := r.leafScale }
+      | _, _ => none
+
+/-- the loop `while (size(point_set) != 0)` -/
 def childLoop (δ : Nat → Nat → K) (fmax : K)
     (ins : Nat → List (DS K) → List (DS K) → List (List (DS K)) → Nat → Option (BRes K)) :
     Nat → LoopSt K → Option (LoopSt K)
@@ -126,24 +149,21 @@ def childLoop (δ : Nat → Nat → K) (fmax : K)
       match cnt with
       | 0 => none
       | cnt + 1 =>
-        match e.dist with
-        | [] => none                                              -- point_set.last().dist.last()
-        | newDist :: _ =>
-          let consumed := st.consumed ++ [e]                      -- push(consumed_set, point_set.last())
-          let ps := st.pointSet.dropLast                          -- point_set.decr()
-          let (mv1, ps1) := distSplit δ fmax e.p ps               -- dist_split(dcb, point_set, new_point_set, ..)
-          let (mv2, far1) := distSplit δ fmax e.p st.far          -- dist_split(dcb, far, new_point_set, ..)
-          match ins e.p (st.newPS ++ mv1 ++ mv2) st.newCS st.stack st.leafScale with
-          | none => none
-          | some r =>
-            let child := setParentDist newDist r.node             -- new_child.parent_dist = new_dist
-            match unsplit fmax r.pointSet, decrAll r.consumed with
-            | some (toPS, toFar), some cs =>
-              childLoop δ fmax ins cnt
-                { pointSet := ps1 ++ toPS, far := far1 ++ toFar, consumed := consumed ++ cs,
-                  newPS := [], newCS := [],                       -- resize(.., 0)
-                  children := st.children ++ [child], stack := r.stack, leafScale := r.leafScale }
-            | _, _ => none
+        match loopStep δ fmax ins st e with
+        | none => none
+        | some st' => childLoop δ fmax ins cnt st'
+
+/-- the end of `batch_insert` after the loop: the arrays go back to the pool, `point_set = far`, the node is filled in -/
+def finishNode (p : Nat) (maxScale topScale : Int) (st : LoopSt K) : Option (BRes K) :=
+  let sc := topScale - maxScale
+  if sc < 0 then none
+  else
+    let scale := sc.toNat                                         -- n.scale = top_scale - max_scale
+    let ls' := if st.leafScale ≤ scale then scale + 1 else st.leafScale
+    match maxSet st.consumed with                                 -- n.max_dist = max_set(consumed_set)
+    | none => none
+    | some md =>
+      some ⟨.mk p md 0 scale st.children, st.far, st.consumed, st.pointSet :: st.newCS :: st.newPS :: st.stack, ls'⟩
 
 variable [DecidableEq K]
 
@@ -162,35 +182,24 @@ def batchInsert (δ : Nat → Nat → K) (getScale : K → Int) (distOfScale : I
           some ⟨.mk p 0 0 100 (newLeaf p :: ps.reverse.map fun e => newLeaf e.p), [], cs ++ ps.reverse, stack, ls⟩
         else
           let nextScale := min (maxScale - 1) (getScale maxDist)
-          let (far0, stack1) := pop stack
-          match split (distOfScale maxScale) ps with
+          match split (distOfScale maxScale) ps with               -- far = pop(stack); split(point_set, far, max_scale)
           | none => none
           | some (ps1, farNew) =>
-            let far := far0 ++ farNew
-            match batchInsert δ getScale distOfScale fuel p nextScale topScale ps1 cs stack1 ls with
+            let far := (pop stack).1 ++ farNew
+            match batchInsert δ getScale distOfScale fuel p nextScale topScale ps1 cs (pop stack).2 ls with
             | none => none
             | some r =>
               if r.pointSet.isEmpty then
                 some ⟨r.node, far, r.consumed, r.pointSet :: r.stack, r.leafScale⟩
               else
-                let (nps, stack3) := pop r.stack
-                let (ncs, stack4) := pop stack3
+                let nps := pop r.stack                             -- new_point_set = pop(stack)
+                let ncs := pop nps.2                               -- new_consumed_set = pop(stack)
                 match childLoop δ (distOfScale maxScale)
                     (fun q a b s l => batchInsert δ getScale distOfScale fuel q nextScale topScale a b s l)
                     (r.pointSet.length + far.length)
-                    ⟨r.pointSet, far, r.consumed, nps, ncs, [r.node], stack4, r.leafScale⟩ with
+                    ⟨r.pointSet, far, r.consumed, nps.1, ncs.1, [r.node], ncs.2, r.leafScale⟩ with
                 | none => none
-                | some st =>
-                  let sc := topScale - maxScale
-                  if sc < 0 then none
-                  else
-                    let scale := sc.toNat                          -- n.scale = top_scale - max_scale
-                    let ls' := if st.leafScale ≤ scale then scale + 1 else st.leafScale
-                    match maxSet st.consumed with                  -- n.max_dist = max_set(consumed_set)
-                    | none => none
-                    | some md =>
-                      some ⟨.mk p md 0 scale st.children, st.far, st.consumed,
-                        st.pointSet :: st.newCS :: st.newPS :: st.stack, ls'⟩
+                | some st => finishNode p maxScale topScale st
 
 mutual
 /-- `set_leaf_scale(n, leaf_scale)` -/
